@@ -185,22 +185,22 @@ def encodeAttr (a : Attr) : AttrVd :=
   if a.nt = DFNT_CHAR then { vsname := a.name.take VSNAMELENMAX, nt := a.nt, order := a.count, nrec := 1, data := a.val }
   else { vsname := a.name.take VSNAMELENMAX, nt := a.nt, order := 1, nrec := a.count, data := a.val }
 
-/-- `hdf_read_attrs`: count = number of records, except that for every type that unmaps to NC_CHAR the count is the field order -/
+/-- `hdf_read_attrs`: count = number of records; for a type that unmaps to NC_CHAR the field order is the count when it
+    describes the data (DFNT_CHAR is written as one record of order n, the other character types as n records of order 1) -/
 def decodeAttr (v : AttrVd) : Attr :=
   let sz := (ntSize v.nt).getD 1
-  if unmap v.nt = some NC_CHAR then { name := v.vsname, nt := v.nt, count := v.order, val := v.data.take (v.order * sz) }
+  if unmap v.nt = some NC_CHAR ∧ (v.order > 1 ∨ v.nrec ≤ 1) then
+    { name := v.vsname, nt := v.nt, count := v.order, val := v.data.take (v.order * sz) }
   else { name := v.vsname, nt := v.nt, count := v.nrec, val := v.data.take (v.nrec * v.order * sz) }
 
 def encodeAttrs (l : AList) : List AttrVd := l.map encodeAttr
 def decodeAttrs (d : List AttrVd) : AList := d.map decodeAttr
 
-/-- an attribute survives the disk form unchanged iff (decidable): its name fits a Vdata name, its value has
-    `count * size` bytes, and it is not one of the char-like types other than DFNT_CHAR itself (known finding:
-    DFNT_UCHAR8 / little-endian char attributes come back with count 1). -/
+/-- an attribute survives the disk form unchanged if (decidable) its name fits a Vdata name, it has at least one value
+    and its value has `count * size` bytes — what `SDsetattr` and the predefined setters guarantee for everything they store. -/
 def Storable (a : Attr) : Bool :=
-  a.name.length ≤ VSNAMELENMAX &&
-  (match ntSize a.nt with | some sz => a.val.length == a.count * sz | none => false) &&
-  (a.nt == DFNT_CHAR || unmap a.nt != some NC_CHAR)
+  a.name.length ≤ VSNAMELENMAX && 0 < a.count &&
+  (match ntSize a.nt with | some sz => a.val.length == a.count * sz | none => false)
 
 /-! ## name / index / reference tables of a file (`SDnametoindex`, `SDnametoindices`, `SDidtoref`, `SDreftoindex`) -/
 
